@@ -404,6 +404,11 @@ class Source:
             if au.is_self_attr(x, "only_border"):
                 return H.name("only_border")
             s = au.src(x)
+            if isinstance(x, ast.Call) and au.call_tail(x) in ("abs", "fabs", "absolute") and len(x.args) == 1 and not x.keywords \
+                    and H.is_name(atom(x.args[0], False), "dot"):
+                # |N1 . N2|: the sign of the dot product is lost before the comparison
+                self.rectified.append(x)
+                return H.name("dot")
             if isinstance(x, ast.Call):
                 t = au.call_tail(x)
                 if t == "has_attribute" and len(x.args) == 1 and au.const(x.args[0]) == "hard_edges" \
@@ -454,6 +459,7 @@ class Source:
                 return ast.Constant(value=True)
             return None
 
+        self.rectified = []
         ab = H.Abs(atom, self.ctx.repo, FEAT, DET)
         conds = self.S.conds(st, stop=self.fn)
         code = ab.boolean(H.conj(conds))
@@ -543,6 +549,11 @@ def o1_m1_sources(ctx, calls):
                 # the call in run() is missing / unreadable: reported there
                 continue
             code, unknown, nfield, conds = S.abstract(st, info, call["cond"])
+            if S.rectified:
+                ctx.fail(rule_o, ssite, f"{name}: the dot product of the two face normals is rectified (absolute value) before it is compared with the threshold",
+                         f"`{au.src(S.rectified[0])[:80]}`: {text}; with |N1.N2| an edge whose normals are more than 90 degrees apart "
+                         "(dot product below minus the threshold: the sharpest creases) is no longer a feature")
+                continue
             truthy = None
             for t, p in conds:
                 for op in _truth_operands(t):
@@ -1212,6 +1223,11 @@ def _boundary_polyline(ctx, info):
         elif isinstance(valc, ast.Constant) and isinstance(val, ast.Name) and not any(au.increment(q) is not None and au.increment(q)[0] == val.id for q in au.stmts(fn.body)):
             ctx.fail("C15-B1", msite, f"{name}: the running offset stored in the index map is never advanced",
                      "every border vertex is mapped to the same index: the offset must equal the number of vertices already appended to the polyline")
+        elif isinstance(valc, ast.Name) and vidx and valc.id == vidx and au.src(S.canon(vstart, vl, keep=(bound,))) == f"len({bound}.vertices)":
+            # enumerate(cycle, start=len(polyline vertices)): the start is read once before the loop, one vertex is appended per iteration
+            ctx.ok("C15-B1", msite, "index = enumerate position starting at the number of vertices already in the polyline")
+        elif isinstance(valc, ast.Name) and vidx and valc.id == vidx and au.const(S.canon(vstart, vl, keep=(bound,))) is None:
+            ctx.undecided("C15-B1", msite, f"{name}: the start of the enumeration that numbers the visited vertices is not recognised", "")
         elif isinstance(valc, ast.Name) and vidx and valc.id == vidx:
             ctx.fail("C15-B1", msite, f"{name}: the index stored in the index map is the position inside the cycle, without the offset of the cycle",
                      "the numbering restarts at 0 for every border loop: with two or more loops several border vertices share one polyline index")
